@@ -132,7 +132,12 @@ pub fn compile_repeat(case: &Value) -> Value {
             Ok(Err(e)) => format!("error:{}", err_stage(&e).0),
             Ok(Ok(prg)) => {
                 let CircuitType::Ssa(c) = &prg.circuit else { unreachable!() };
-                serde_json::to_string(&ssa_to_json(c)).unwrap()
+                // the register form is part of the outcome: "same options, identical circuit" covers it too
+                let reg = match guarded(|| rc::Circuit::from(c)) {
+                    Ok(r) => serde_json::to_string(&reg_to_json(&r)).unwrap(),
+                    Err(p) => format!("panic@{p}"),
+                };
+                format!("{}|{}", serde_json::to_string(&ssa_to_json(c)).unwrap(), reg)
             }
         };
         *outcomes.entry(key).or_insert(0) += 1;
